@@ -53,7 +53,10 @@ CHECKS = {
              "and big lengths around 184-byte multiples) is packed by lal, parsed by an independent TS reader and the "
              "records are decided by the same acceptor in TLC, including CRC-32/MPEG-2 recomputed in TLA+.",
         note="Trusted: the independent TS/PES/PSI reader harness/proj/ts.go; lal's constant 63000-tick PTS delay is a "
-             "spec constant.",
+             "spec constant. The continuity counters live in Rtmp2MpegtsRemuxer between two Pack calls: the RemuxOut "
+             "scenarios (spec/RemuxOut.tla, every codec combination, simulated + directed) are replayed through a real Group "
+             "as well and their TS layer (continuity per PID, lengths, headers, stray bytes) judged at HTTP-TS consumers "
+             "and in HLS segments; rejections of that part that are not at the TS layer are left to C06.",
         ref="6/C09"),
     "C11": dict(
         technique="TLA+ spec FlvWs (session write-unit machine + tag/WebSocket field functions) + edge-cover replay "
@@ -62,7 +65,10 @@ CHECKS = {
              "every edge is executed against the real sub-session / file writer / pack functions, the bytes are cut by an "
              "independent FLV and RFC 6455 reader and TLC decides header fields, stream grammar, one-frame-per-unit and "
              "lal's own read-back against the specification.",
-        note="Trusted: independent FLV/WebSocket reader harness/proj/flv.go; lengths/timestamps are boundary pools.",
+        note="Trusted: independent FLV/WebSocket reader harness/proj/flv.go; lengths/timestamps are boundary pools. Every "
+             "HTTP-FLV / WebSocket session of the cover runs twice: with synchronous writes and through lal's asynchronous "
+             "write queue with a peer that reads only after everything is queued; every second file session finds an older, "
+             "longer recording at its path.",
         ref="6/C11"),
     "C18": dict(
         technique="TLA+ spec Amf0 (token-level encoder + lal's decoder as a depth-bounded machine; TLC enumerates value "
@@ -279,14 +285,20 @@ CHECKS = {
     "C10": dict(
         technique="TLA+ model Hls of hls.Muxer with the file system as a state variable, one spec step per file-system "
                   "operation; TLC checks 8 invariants in every state (= every crash point); enumerated and simulated input "
-                  "histories replayed into a real hls.Muxer on a recording file-system layer + per-operation TLC trace validation",
+                  "histories replayed into a real hls.Muxer on a recording file-system layer + per-operation TLC trace validation; "
+                  "TLA+ model HlsCleanup of the ServerManager layer (Group identity, tick, re-publish, delayed directory cleanup) "
+                  "replayed into a real logic.ServerManager with real timers + TLC trace validation",
         text="TLC checks PlaylistWellFormed, SeqMonotone, TargetCovers, ListedExist, ListedWhole, RecentStillPresent, "
              "NoLossNoDup, Finalised in every intermediate file-system state for bounded frame sequences over all fragment_num x "
              "delete_threshold x cleanup_mode, fragment durations, audio-only and A/V, and one re-publish; the same histories "
              "are fed to a real muxer and every recorded file-system operation (with parsed playlist / segment content) must "
              "be the one the model queued and leave all invariants true.",
-        note="The Group layer (CleanupHlsIfNeeded, remuxer re-entrancy) is not modelled; file operations are atomic at the "
-             "granularity of create/write/close/rename/remove; timestamps are whole milliseconds.",
+        note="File operations are atomic at the granularity of create/write/close/rename/remove; timestamps are whole "
+             "milliseconds. The cleanup part (spec/HlsCleanup.tla: LiveSpared, Listed, Cleaned, NeverCleaned; a design mutant "
+             "whose timer remembers the Group of arming time must violate LiveSpared) replays the edge cover of its state graph, "
+             "simulated and directed behaviours with real 900 ms timers; a publisher arriving between the timer's decision and "
+             "the removal is driven through a verif hook gate (directed scenarios only); a scenario that misses a real-time "
+             "bound is re-run and never judged (exit 2 if late twice).",
         ref="6/C10"),
     "C04": dict(
         technique="TLA+ spec RtmpSession (protocol machine of rtmp.ServerSession seen from the peer; per (state, message) the set "
